@@ -50,12 +50,15 @@ def gen_cases(params, rng, rows_per_w, nrand, widths=(16, 32, 64)):
                 add("cshoup:random word", "compute_shoup", rng.randrange(B))
             # --- shoup remainder lands in [p, p + x p / B): model-side search for the conditional-subtraction branch
             hits = 0
-            for _ in range(200):
-                x, y = R(), R()
+            for it in range(400):
+                x, y = (R(), R()) if it % 2 == 0 else (p - 1 - rng.randrange(64), R())
                 yp = (y * B) // p
                 q = (x * yp) >> w
                 r = x * y - q * p
                 if r >= p:
                     add("mulshoup:remainder >= p before the conditional subtraction", "mulmod_shoup", x, y); hits += 1
-                    if hits >= 4: break
+                    # the lazy multiply-add at its largest: rop = p-1 (p-2, r-dependent) on top of a remainder >= p
+                    for z in (p - 1, p - 2, (2 * p - 1 - r) % p, (2 * p - r) % p):
+                        add("muladdshoup:rop near p-1 on top of a Shoup remainder >= p (largest lazy sum)", "muladd_shoup", z, x, y)
+                    if hits >= 8: break
     return out
